@@ -27,7 +27,7 @@ func main() {
 	}
 	rng := wh.NewRng(a.Seed)
 	emit := func(sc rl.Scenario) bool {
-		rl.Emit(out, rl.Run(sc))
+		rl.Emit(out, rl.RunMaybeIsolated(sc))
 		if rl.TooManyStuck() {
 			out.Note("stopped generating: three scenarios ran into the liveness bound")
 			return false
@@ -37,6 +37,7 @@ func main() {
 	var all []rl.Scenario
 	all = append(all, rl.LockOrder(rng, a.Thorough())...)
 	all = append(all, rl.BeforeRunning(rng, a.Thorough())...)
+	all = append(all, rl.SubscribeRetry(rng, a.Thorough())...)
 	all = append(all, rl.LastMessage(rng, a.Thorough())...)
 	all = append(all, rl.PathPoints(rng, a.Thorough())...)
 	all = append(all, rl.ClosePoints(rng, a.Thorough())...)
